@@ -503,7 +503,8 @@ def run_part(ctx):
     jobs = []
 
     # ---- TrimMapping -------------------------------------------------------------------------------------------
-    tm = lambda **kw: dict(dict(NOrig=3, NTrim=2, Slots=2, Files=1, MaxPairs=2, Depth=3, Emit=False, Variants=False), **tg, **kw)
+    tm = lambda **kw: dict(dict(NOrig=3, NTrim=2, Slots=2, Files=1, MaxPairs=2, Depth=3, Emit=False, Variants=False, OpBudget=0),
+                           **tg, **kw)
     jobs.append(dict(module="TrimMapping", cwd=d, workers=2, coverage=True, timeout=900, java_opts=("-Xmx3g",),
                      cfg=_cfg(d, "tm_mc.cfg", tm(Depth=3 if quick else 4), TM_INVS, TM_PROPS, "HistView"),
                      label="TrimMapping exhaustive (VIEW HistView) 3 original x 2 trimmed ids, 2 names, 1 file, depth %d"
@@ -516,14 +517,14 @@ def run_part(ctx):
                      label="TrimMapping all histories of length 2, one name, every container form / entry point"))
     nw = 300 if quick else 3000
     jobs.append(dict(module="TrimMapping", cwd=d, workers=1, timeout=900, java_opts=("-Xmx2g",),
-                     cfg=_cfg(d, "tm_sim.cfg", tm(NOrig=3, NTrim=3, Slots=3, Files=2, MaxPairs=2, Depth=8, Emit=True, Variants=True),
-                              TM_INVS[:-1] + ["EmitFull"], constraints=["Balanced3"]),
+                     cfg=_cfg(d, "tm_sim.cfg", tm(NOrig=3, NTrim=3, Slots=3, Files=2, MaxPairs=2, Depth=8, Emit=True, Variants=True,
+                                                  OpBudget=3), TM_INVS[:-1] + ["EmitFull"]),
                      simulate="num=%d" % nw, extra=["-depth", "9"], seed=ctx.seed * 100 + 41,
                      label="TrimMapping %d simulated walks of length 8 (3x3 ids, 3 names, 2 files)" % nw))
 
     # ---- MSM life cycle ----------------------------------------------------------------------------------------------
     ml = lambda **kw: dict(dict(S=3, MaxT=1, MaxLen=3, MaxLag=2, Data="{1, 2, 3}", AnyNew=False, Variants=False, Depth=4,
-                                Emit=False), **mg, **kw)
+                                Emit=False, OpBudget=0), **mg, **kw)
     jobs.append(dict(module="MSMLife", cwd=d, workers=2, coverage=True, timeout=1500, java_opts=("-Xmx3g",),
                      cfg=_cfg(d, "ml_mc.cfg", ml(Depth=4 if quick else 5), ML_INVS, ML_PROPS, "HistView"),
                      label="MSMLife exhaustive (VIEW HistView) 3 catalogue assignment sets, depth %d" % (4 if quick else 5)))
@@ -536,9 +537,15 @@ def run_part(ctx):
                      label="MSMLife exhaustive over EVERY assignment set of the MSMObj scope S=2, any constructor configuration"))
     nm = 250 if quick else 2500
     jobs.append(dict(module="MSMLife", cwd=d, workers=1, timeout=1500, java_opts=("-Xmx2g",),
-                     cfg=_cfg(d, "ml_sim.cfg", ml(AnyNew=True, Depth=9, Emit=True), ML_INVS + ["EmitFull"], constraints=["Balanced2"]),
+                     cfg=_cfg(d, "ml_sim.cfg", ml(AnyNew=True, Depth=9, Emit=True, OpBudget=2), ML_INVS + ["EmitFull"]),
                      simulate="num=%d" % nm, extra=["-depth", "10"], seed=ctx.seed * 100 + 43,
                      label="MSMLife %d simulated life cycles of length 9 (any constructor configuration)" % nm))
+    dc = 4 if quick else 5
+    jobs.append(dict(module="MSMLife", cwd=d, workers=1, timeout=1500, java_opts=("-Xmx3g",),
+                     cfg=_cfg(d, "ml_cyc.cfg", ml(Data="{%d}" % (1 + ctx.seed % 3), Depth=dc, Emit=True, OpBudget=1), ["EmitFull"],
+                              [], "OpView"),
+                     label="MSMLife every life cycle of %d different operations on catalogue set %d (VIEW OpView)"
+                           % (dc, 1 + ctx.seed % 3)))
     res = ctx.tlc_parallel(jobs, max_par=3)
 
     # vacuity: every action of the two machines fired in the exhaustive runs
@@ -580,7 +587,7 @@ def run_part(ctx):
 
     # ---- replay: MSM life cycle -------------------------------------------------------------------------------------------
     ml_cases = []
-    for k in (5, 7):
+    for k in (5, 7, 8):
         got = [p for t, p in res[k].prints if t == "CASE"]
         if not got:
             raise core.MachineryError("no histories from %s" % jobs[k]["label"])
